@@ -63,6 +63,11 @@ fn choice_value(axis: usize, idx: usize, kind: u8) -> Value {
             for j in 0..nkeys {
                 m.insert(format!("axis{}_key{}", axis, j), json!(format!("v{}-{}-{}", axis, idx, j)));
             }
+            // every other object-valued choice also brings a whole section of its own: an entry
+            // whose value is an object, under a name the query already uses for an object
+            if idx % 2 == 1 {
+                m.insert(format!("section{}", axis), json!({"choice": idx, "depth": {"y": idx}}));
+            }
             Value::Object(m)
         }
     }
@@ -123,6 +128,12 @@ fn build(base_fields: u8, axes: &[Axis], non_array: u8, grid_pos: u8, rotate: u8
     if pos >= nb {
         q.insert("grid_search".into(), Value::Object(grid.clone()));
     }
+    // the query's own sections, one per axis that has object-valued choices: a chosen object's
+    // entry of the same name replaces it as a whole (entries are overlaid at the top level)
+    let section_axes: Vec<usize> = (0..axes.len()).filter(|ai| axes[*ai].choices.iter().any(|k| *k >= 3)).collect();
+    for ai in &section_axes {
+        q.insert(format!("section{}", ai), json!({"base": true, "depth": {"x": ai}}));
+    }
     // reference product: nested loops over index tuples
     let mut expected = vec![];
     let lens: Vec<usize> = values.iter().map(|v| v.len()).collect();
@@ -131,6 +142,9 @@ fn build(base_fields: u8, axes: &[Axis], non_array: u8, grid_pos: u8, rotate: u8
         let mut inst = serde_json::Map::new();
         for i in 0..nb {
             inst.insert(format!("b{}", i), base_value(i));
+        }
+        for ai in &section_axes {
+            inst.insert(format!("section{}", ai), json!({"base": true, "depth": {"x": ai}}));
         }
         for (ai, l) in lens.iter().enumerate() {
             let ci = t % l;
